@@ -19,13 +19,42 @@ type wireView struct {
 	rd    *ssa.Function
 	wr    *ssa.Function
 	send  *ssa.Function // the client's request/response exchange method
+	flow  *byteFlow     // value sets of the dispatch byte over Tree(serve)
 }
 
 func newWireView(w *World) *wireView {
 	v := &wireView{w: w, serve: w.Func(yubiPkg, "ServeAgent")}
 	v.rd, v.wr = framingFns(w, yubiPkg)
 	v.send = clientExchange(w)
+	if v.serve != nil {
+		v.flow = w.newByteFlow(v.serve, v.isDispatchByte, func(ins ssa.Instruction) bool {
+			call, ok := ins.(*ssa.Call)
+			return ok && v.rd != nil && call.Call.StaticCallee() == v.rd
+		})
+	}
 	return v
+}
+
+// isDispatchByte: val is req[0], req being what the framed read of the connection returned (possibly handed to a
+// helper).
+func (v *wireView) isDispatchByte(val ssa.Value) bool {
+	ld, ok := throughCell(strip(val)).(*ssa.UnOp)
+	if !ok || ld.Op != token.MUL {
+		return false
+	}
+	ia, ok := ld.X.(*ssa.IndexAddr)
+	if !ok {
+		return false
+	}
+	if z, isZ := intConst(ia.Index); !isZ || z != 0 {
+		return false
+	}
+	ex, ok := v.w.resolveUp(v.serve, throughCell(strip(ia.X))).(*ssa.Extract)
+	if !ok || ex.Index != 0 {
+		return false
+	}
+	cv, ok := ex.Tuple.(*ssa.Call)
+	return ok && v.rd != nil && cv.Call.StaticCallee() == v.rd
 }
 
 // dispatchCode: literal l states req[0] == K (true edge of the dispatch comparison); returns K.
@@ -72,26 +101,12 @@ func (v *wireView) inArm(ins ssa.Instruction, k int64) bool {
 }
 
 func (v *wireView) inArmD(ins ssa.Instruction, k int64, depth int) bool {
-	if v.serve == nil || depth > 3 {
+	if v.serve == nil || v.flow == nil {
 		return false
 	}
-	f := v.w.factsOf(v.serve)
-	g := ins.Parent()
-	for g.Parent() != nil {
-		g = g.Parent()
-	}
-	for l := range f.Primary(ins.Block()) {
-		if kk, ok := v.dispatchCode(l); ok && kk == k {
-			return true
-		}
-	}
-	if g == v.serve {
-		return false
-	}
-	for _, s := range v.w.sitesIn(v.serve, g) {
-		if v.inArmD(s, k, depth+1) {
-			return true
-		}
+	// the value set of the dispatch byte at ins is {k}
+	if s := v.flow.At(ins); !s.empty() {
+		return s == bsetOf(k)
 	}
 	return false
 }
